@@ -21,7 +21,7 @@ CHECKS = {
             "echoing received values) are enumerated by path forking; values are symbolic; per history the solver decides equality of all return values "
             "and generator-side effects with a 40-line specification automaton. Bounded by H and n.", "§6 C09"),
     "C10": (MC, "bounded symbolic execution (SSA->SMT, z3) of seq/iter.go against native range in the same harness",
-            "For every byte string up to the length bound (bytes fully symbolic), every n <= bound, small slices/maps/channels with mutation scripts, "
+            "For every byte string up to the length bound (bytes fully symbolic), long strings with a 4-byte fully symbolic window in front of every power-of-two offset up to the bound, every n <= bound, small slices/maps/channels with mutation scripts, "
             "the pairs produced by seq.New*Iter are compared by the solver with those of the native range statement lowered by go/ssa. Bounded sizes.", "§6 C10"),
     "C17": (MC, "bounded symbolic execution (SSA->SMT, z3) with interpreter call depth as observable",
             "Loops whose body completes n times without yielding (n symbolic up to the bound, Normal/Continue per iteration) are executed from the SSA of "
